@@ -2,7 +2,7 @@ import MiVerif.Model.Abandon
 /-! executable validator for the hand-over model, proved sound w.r.t. the `Step` relation -/
 inductive Lbl where
   | markStore (t : Nat) | markOr (t : Nat) | markInc | clearAnd (t : Nat) | clearMiss
-  | remark (t : Nat) | clearDec (t : Nat) | clearOwn (t : Nat)
+  | remark (t : Nat) | clearDec (t : Nat) | clearOwn (t : Nat) | reMarkStore (t : Nat) | ownAgain (t : Nat)
 deriving Repr
 
 def exec (s : St) : Lbl → Option St
@@ -14,6 +14,8 @@ def exec (s : St) : Lbl → Option St
   | .remark t    => if .c1 t ∈ s.fl then some { s with bit := true, fl := s.fl.erase (.c1 t) } else none
   | .clearDec t  => if .c1 t ∈ s.fl then some { s with cnt := s.cnt - 1, fl := .c2 t :: s.fl.erase (.c1 t) } else none
   | .clearOwn t  => if .c2 t ∈ s.fl then some { s with owner := t, fl := s.fl.erase (.c2 t) } else none
+  | .reMarkStore t => if .c2 t ∈ s.fl then some { s with fl := .m1 t :: s.fl.erase (.c2 t) } else none
+  | .ownAgain t  => if s.owner = t then some s else none
 
 theorem exec_sound {s s' : St} {l : Lbl} (h : exec s l = some s') : Step s s' := by
   cases l with
@@ -56,6 +58,16 @@ theorem exec_sound {s s' : St} {l : Lbl} (h : exec s l = some s') : Step s s' :=
     simp only [exec] at h
     split at h
     · rename_i hc; cases h; exact Step.clearOwn s t hc
+    · cases h
+  | reMarkStore t =>
+    simp only [exec] at h
+    split at h
+    · rename_i hc; cases h; exact Step.reMarkStore s t hc
+    · cases h
+  | ownAgain t =>
+    simp only [exec] at h
+    split at h
+    · rename_i hc; cases h; exact Step.ownAgain s t hc
     · cases h
 
 def run (s : St) : List Lbl → Option St
